@@ -10,6 +10,7 @@
   facts regenerated from the source of every mutex-protected type on every run.
 -/
 import Facts.Generated
+import Proofs.Linearizable
 namespace C19
 
 /-! ### (1) the readers-writer lock as a transition system (counter abstraction: thread identities do not matter) -/
@@ -99,6 +100,35 @@ theorem data_stable_while_reading {σ : Type} (d0 : σ) (s s' : St σ) (h : Reac
     the section (the linearization point) -/
 theorem writer_is_alone {σ : Type} (d0 : σ) (s : St σ) (h : Reach d0 s) (hw : 1 ≤ s.w) : s.w = 1 ∧ s.r = 0 := by
   have := mutual_exclusion d0 s h; omega
+
+/-! ### (1b) explicit threads: one critical section per operation ⟹ linearizable (Proofs/Linearizable.lean) -/
+
+/-- LINEARIZABILITY (any object whose every operation is ONE critical section of a readers-writer lock — the shape
+    `discipline_holds` establishes below for `MutexMap` and the priced function objects; any number of threads, any
+    interleaving, every reachable state): the accesses in the order they happened are a legal sequential history of the
+    specification that yields the current state and exactly the returned outputs; every thread's events read call ·
+    access · return in this order, so each access lies between its operation's call and its return (the sequential
+    history respects real-time order); and a thread inside a write section is alone inside any section. -/
+theorem one_section_objects_linearizable {σ ι ο : Type} (S : Lin.Spec σ ι ο) (d0 : σ) (s : Lin.St σ ι ο)
+    (h : Lin.Reach S d0 s) :
+    Lin.Legal S d0 (Lin.lins s.evs) s.data ∧ (∀ t, Lin.parse t s.evs .idle = some (s.pcs t).view) ∧ Lin.Excl S s :=
+  Lin.linearizable S d0 s h
+
+/-- … for the map beneath the container: Get / Len / Keys (read lock), Insert as test-and-set, Set, Remove (write lock) -/
+theorem mutexMap_linearizable {κ ν : Type} [DecidableEq κ] (s : Lin.St (List (κ × ν)) (Lin.MapOp κ ν) (Lin.MapOut κ ν))
+    (h : Lin.Reach Lin.mapSpec [] s) : Lin.Legal Lin.mapSpec [] (Lin.lins s.evs) s.data :=
+  (Lin.linearizable Lin.mapSpec [] s h).1
+
+/-- … for a priced function object: whatever schedule an execution reads (its own cost AND the base costs, inside one
+    read section) is ONE schedule — the initial one or one that some `SetNewGasConfig` installed — never a mixture of two -/
+theorem one_schedule {γ : Type} (g0 : γ) (s : Lin.St γ (Lin.CfgOp γ) γ) (h : Lin.Reach (Lin.cfgSpec γ) g0 s) :
+    ∀ p ∈ Lin.lins s.evs, p.2 = g0 ∨ ∃ q ∈ Lin.lins s.evs, q.1 = .install p.2 :=
+  Lin.legal_cfg_outputs g0 s.data _ (Lin.linearizable (Lin.cfgSpec γ) g0 s h).1
+
+/-- the sequential specification of `Insert` is test-and-set: a second insert of a key is refused and changes nothing
+    (kernel-evaluated; the non-atomic variant is what seeded change C19-1 / C19-f13 introduce) -/
+example : ((Lin.mapSpec (κ := Nat) (ν := Nat)).apply ((Lin.mapSpec.apply [] (.insert 1 10)).1) (.insert 1 20)).1 = [(1, 10)] := by
+  decide
 
 /-! ### (2) the lock discipline `D`, decided on regenerated facts -/
 
